@@ -58,7 +58,45 @@ Json gen(uint64_t seed, const std::string &tier)
     for (unsigned k = 0; k < nops; k++) {
         Json o = Json::object();
         unsigned w = (unsigned)g.below(10);
-        if (w < 7) {
+        if (w < 7 && g.chance(1, 8)) {
+            // a dump that fails half way: an expression with a node that
+            // cannot be serialised, after some that can. The failure itself
+            // is fine; what follows on the same thread must not notice it.
+            o["op"] = "rt";
+            Json r = Json::array();
+            r.push(g.chance(1, 2) ? "add" : "fsym");
+            if (r[0].s == "fsym")
+                r.push("h");
+            unsigned n = 1 + (unsigned)g.below(3);
+            for (unsigned i = 0; i < n; i++) {
+                Json rr = Json::array();
+                rr.push("ref");
+                rr.push((long long)g.below(npool));
+                r.push(rr);
+            }
+            Json bad = Json::array();
+            if (g.chance(1, 2)) {
+                bad.push("uintpoly");
+                bad.push((long long)g.below(3));
+                bad.push((long long)g.range(-5, 5));
+                bad.push((long long)g.range(1, 5));
+            } else {
+                bad.push("contains");
+                Json sy = Json::array();
+                sy.push("sym");
+                sy.push((long long)g.below(3));
+                bad.push(sy);
+                Json st = Json::array();
+                st.push("set");
+                st.push(g.chance(1, 2) ? "naturals" : "complexes");
+                bad.push(st);
+            }
+            r.push(bad);
+            o["e"] = r;
+            o["api"] = g.chance(3, 4) ? "string" : "archive";
+            o["read_seed"] = (long long)(g.next() >> 2);
+            o["expect_unsupported"] = true;
+        } else if (w < 7) {
             o["op"] = "rt";
             if (g.chance(1, 2)) {
                 Json r = Json::array();
@@ -90,6 +128,13 @@ Json gen(uint64_t seed, const std::string &tier)
             for (unsigned i = 0; i < r * c; i++)
                 el.push((long long)g.below(npool));
             o["elems"] = el;
+        } else if (g.chance(1, 2)) {
+            // loads that fail (a torn copy of a valid dump), in a burst: the
+            // failures are fine, the round trips after them must not notice
+            o["op"] = "failed_loads";
+            o["e"] = (long long)g.below(npool);
+            o["n"] = (unsigned)(1 + g.below(g.chance(1, 3) ? 400 : 20));
+            o["cut"] = (long long)g.below(100000);
         } else {
             o["op"] = "junk";
             o["n"] = (unsigned)(1 + g.below(200));
@@ -224,6 +269,28 @@ void exec(Run &run)
             run.ev("junk " + std::to_string(n));
             continue;
         }
+        if (op == "failed_loads") {
+            const RCP<const Basic> &e = pool[(size_t)o.geti("e") % pool.size()];
+            std::string bytes;
+            try {
+                bytes = e->dumps();
+            } catch (const SymEngineException &) {
+                continue;
+            }
+            unsigned n = (unsigned)std::min<int64_t>(500, o.geti("n", 1)), failed = 0;
+            for (unsigned i = 0; i < n && bytes.size() > 5; i++) {
+                // torn write: keep a proper prefix that ends inside the payload
+                size_t keep = 4 + (size_t)((o.geti("cut") + 7 * i) % (int64_t)(bytes.size() - 4));
+                try {
+                    (void)Basic::loads(bytes.substr(0, keep));
+                } catch (const SymEngineException &) {
+                    failed++;
+                }
+            }
+            run.counters["fault.load_of_torn_dump_failed"] += failed;
+            run.ev("failed_loads " + std::to_string(failed) + "/" + std::to_string(n));
+            continue;
+        }
         if (op == "matrix") {
             unsigned r = 1 + (unsigned)((o.geti("rows", 1) + 3) % 4);
             unsigned c = 1 + (unsigned)((o.geti("cols", 1) + 3) % 4);
@@ -294,6 +361,8 @@ void exec(Run &run)
         } catch (const SymEngineException &ex) {
             run.ev("dumps unsupported: " + demangle(typeid(ex).name()));
             run.probe("dumps_unsupported");
+            if (o.at("expect_unsupported").as_bool())
+                run.fault("dumps_failed_half_way");
             continue;
         }
         simalloc::Stats after = simalloc::stats();
